@@ -528,6 +528,72 @@ def r6(k: Kit) -> None:
                   fi.loc(fi.node), g.describe_path(w) if w else None)
 
 
+def r7(k: Kit) -> None:
+    """zlib packet compression (RFC 4253 §6.2)."""
+    rep = k.rep
+    rep.rule('C02.R7', 'compression: one zlib context per direction, created '
+             'once (never per packet); every compressed payload ends with a '
+             'Z_SYNC_FLUSH so the peer can inflate it on its own; the '
+             'decompressor inflates the whole payload it is given (no output '
+             'limit unless the unconsumed tail is drained) and returns the '
+             'result unsliced')
+    co = k.func('compression._ZLibCompress.compress')
+    de = k.func('compression._ZLibDecompress.decompress')
+    # contexts created only in __init__
+    for cls, fld in (('_ZLibCompress', 'self._comp'),
+                     ('_ZLibDecompress', 'self._decomp')):
+        c = k.idx.cls('compression.' + cls)
+        writers = [f.name for f in c.methods.values()
+                   if k.stores_to(f, fld)]
+        rep.check(writers == ['__init__'], 'C02.R7',
+                  f'compression.{cls}|{fld} created once',
+                  'one zlib context for the life of the direction',
+                  f'{fld} is (re)created in {writers}: the zlib stream '
+                  'context must persist from packet to packet',
+                  c.methods['__init__'].loc(c.methods['__init__'].node)
+                  if '__init__' in c.methods else '')
+    flush = [c for n, c in k.calls_named(co, 'flush')
+             if c.args and (dotted(c.args[0]) or '').endswith('Z_SYNC_FLUSH')]
+    comp = [c for n, c in k.calls_named(co, 'compress')
+            if dotted(c.func.value) == 'self._comp' and c.args and
+            dotted(c.args[0]) == 'data']
+    rets = [x for x in ast.walk(co.node) if isinstance(x, ast.Return) and
+            x.value is not None and not (isinstance(x.value, ast.Constant)
+                                         and x.value.value is None)]
+    okc = bool(flush) and bool(comp) and all(
+        any(f is y for y in ast.walk(r.value) for f in flush) and
+        any(c is y for y in ast.walk(r.value) for c in comp) for r in rets)
+    rep.check(okc and bool(rets), 'C02.R7', key(co, 'sync flush per packet'),
+              'payload = compress(data) ‖ flush(Z_SYNC_FLUSH)',
+              'a compressed payload is returned without the data or without '
+              'a Z_SYNC_FLUSH: the peer cannot inflate the packet until '
+              'later packets arrive', co.loc(co.node))
+    calls = [c for n, c in k.calls_named(de, 'decompress')
+             if dotted(c.func.value) == 'self._decomp']
+    okd = bool(calls)
+    why = 'the decompressor does not inflate its argument'
+    for c in calls:
+        limited = len(c.args) > 1 or any(kw.arg == 'max_length'
+                                         for kw in c.keywords)
+        if not c.args or dotted(c.args[0]) != 'data':
+            okd = False
+            why = 'the zlib call is not given the packet payload'
+        if limited and 'unconsumed_tail' not in unparse(de.node):
+            okd = False
+            why = ('zlib decompress() is given an output limit but the '
+                   'unconsumed tail is never drained: a payload that '
+                   'inflates beyond the limit is silently truncated and the '
+                   'shared stream context desynchronised')
+    for r in [x for x in ast.walk(de.node) if isinstance(x, ast.Return) and
+              x.value is not None]:
+        if isinstance(r.value, ast.Subscript):
+            okd = False
+            why = 'the inflated payload is sliced before it is returned'
+    rep.check(okd, 'C02.R7', key(de, 'whole payload inflated'),
+              'inflates the whole payload, returns it unsliced', why,
+              de.loc(de.node))
+
+
 def run(idx, rep, tier):
     k = Kit(idx, rep)
     rep.assumptions += NOT_DECIDED
@@ -542,3 +608,4 @@ def run(idx, rep, tier):
     r4(k)
     r5(k)
     r6(k)
+    r7(k)
